@@ -25,9 +25,11 @@ ASSUMPTIONS = [
     'a thread waits for the lock (DESIGN.md 2.4)',
     'primitive models (RLock, Thread) follow CPython semantics',
 ]
-COMPONENTS = {'real': ['bardolph/lib/job_control.py'],
+COMPONENTS = {'real': ['bardolph/lib/job_control.py',
+                       'bardolph/controller/ls_module.py (queue_script, '
+                       'about 6% of the runs)'],
               'stub': ['thread scheduling', 'clock', 'job bodies']}
-PROBES = ['callback_raced_enqueue', 'lock_contended', 'job_raised',
+PROBES = ['job_raised_base_exception', 'callback_raced_enqueue', 'lock_contended', 'job_raised',
           'stopped_by_controller', 'clear_raced_pop', 'observer_overlapped',
           'front_insert_while_busy']
 WALL_CAP = {'quick': 100, 'thorough': 1200}
@@ -38,8 +40,36 @@ def runs_for(tier):
 
 
 # ---------------------------------------------------------------------------
+def gen_ls(rng):
+    """Clients of the Python interface: ls_module.queue_script() from 2-3
+    threads, the very first calls of the process included."""
+    from sim import policy
+    n_clients = rng.choice([2, 2, 3])
+    jobs = []
+    clients = []
+    for c in range(n_clients):
+        ops = []
+        if rng.random() < 0.3:
+            ops.append({'op': 'sleep', 'd': rng.choice([0.01, 0.1])})
+        for _ in range(rng.randint(1, 2)):
+            jid = len(jobs)
+            kinds = ['quick', 'quick', 'sleep', 'raise']
+            jobs.append({'id': jid, 'kind': rng.choice(kinds),
+                         'yields': rng.randint(0, 3),
+                         'dur': rng.choice([0.0, 0.01, 0.1]),
+                         'name': None, 'how': 'add'})
+            ops.append({'op': 'add', 'job': jid})
+        clients.append(ops)
+    pol = policy.draw_policy(rng, est_len=200, stalls=False)
+    if pol['gran'] == 'sync':
+        pol['gran'] = 'line'
+    return {'policy': pol, 'jobs': jobs, 'clients': clients, 'via': 'ls'}
+
+
 def gen(rng, tier, index):
     from sim import policy
+    if rng.random() < 0.06:
+        return gen_ls(rng)
     n_clients = rng.choice([1, 2, 2, 3, 3])
     total_jobs = rng.randint(1, 6)
     with_clear = rng.random() < 0.25
@@ -56,6 +86,8 @@ def gen(rng, tier, index):
     for (c, _k) in sorted(slots[:total_jobs]):
         jid = len(jobs)
         kind = rng.choice(['quick', 'quick', 'sleep', 'raise', 'until_stop'])
+        if kind == 'raise' and rng.random() < 0.35:
+            kind = 'exit'       # ends by raising a BaseException subclass
         job = {'id': jid, 'kind': kind,
                'yields': rng.randint(0, 3),
                'dur': rng.choice([0.0, 0.01, 0.1, 0.5])}
@@ -196,6 +228,10 @@ def execute(scenario, chooser):
                 elif spec['kind'] == 'raise':
                     sim.count('job_raised')
                     raise RuntimeError('job {} fails'.format(spec['id']))
+                elif spec['kind'] == 'exit':
+                    sim.count('job_raised')
+                    sim.count('job_raised_base_exception')
+                    raise SystemExit(3)
             finally:
                 if queued:
                     state['running'] -= 1
@@ -237,6 +273,14 @@ def execute(scenario, chooser):
         try:
             if kind in ('add', 'insert', 'spawn'):
                 spec = scenario['jobs'][op['job']]
+                if via_ls:
+                    agent = state['ls'].queue_script(
+                        'job:{}'.format(spec['id']))
+                    state['agents'][spec['id']] = agent
+                    ret = agent is not None
+                    hist.add('ret', op=kind, client=cidx, inv=inv, value=ret,
+                             exc=None, **data)
+                    return
                 job = SimJob(spec)
                 state['jobs'][spec['id']] = job
                 if kind == 'add':
@@ -277,8 +321,53 @@ def execute(scenario, chooser):
         return agent.job.spec['id']
 
     final = {}
+    via_ls = scenario.get('via') == 'ls'
+
+    def make_job(text):
+        spec = scenario['jobs'][int(text.split(':')[1])]
+        job = SimJob(spec)
+        state['jobs'][spec['id']] = job
+        return job
+
+    def main_ls():
+        # a new process: the module is imported afresh, its functions are
+        # pre-emptible, and ScriptJob.from_string hands out instrumented jobs
+        import importlib
+        from sim import tracing
+        from bardolph.controller import ls_module, script_job
+        saved = script_job.ScriptJob.__dict__['from_string']
+        script_job.ScriptJob.from_string = staticmethod(make_job)
+        try:
+            ls = importlib.reload(ls_module)
+            names = [c.co_qualname for c in _all_codes(ls)]
+            tracing.scope_module(ls, instructions=names)
+            state['ls'] = ls
+            clients = []
+            for i, ops in enumerate(scenario['clients']):
+                clients.append(sim.spawn(client_body(None, ops, i), 'client'))
+            for c in clients:
+                sim.join(c)
+            hist.add('clients_done')
+            drained = False
+            for _ in range(400):
+                alive = [t for t in sim.threads
+                         if t.role == 'job' and t.state != 'done']
+                if not alive:
+                    drained = True
+                    break
+                sim.sleep(0.05)
+            final.update({'drained': drained, 'has_jobs': False,
+                          'current': None, 'queued': [],
+                          'running_names': [],
+                          'alive': [t.name for t in sim.threads
+                                    if t.role == 'job'
+                                    and t.state != 'done']})
+        finally:
+            script_job.ScriptJob.from_string = saved
 
     def main():
+        if via_ls:
+            return main_ls()
         jc = job_control.JobControl()
         clients = []
         for i, ops in enumerate(scenario['clients']):
@@ -343,6 +432,18 @@ def execute(scenario, chooser):
                                      if e['kind'] == 'start'],
                      'thread_switches': sim.switches}
     return res
+
+
+def _all_codes(module):
+    import types
+    from sim import tracing
+    seen = set()
+    out = []
+    for obj in vars(module).values():
+        if isinstance(obj, (types.FunctionType, type)) and \
+                getattr(obj, '__module__', None) == module.__name__:
+            out.extend(tracing._codes_of(obj, seen))
+    return out
 
 
 def _fmt_stacks(stacks):
